@@ -16,6 +16,8 @@ Parts
              4. a second run whose target lies a sliver (1e-10 .. 8e-6 of a step) past, or just before, a natural step end
                 of the first run: the states recorded there obey oracle 1 too (a step that "almost" reaches the target
                 is not the target)
+  sharp      y' = -K tanh(M y) + cos 3t (nearly discontinuous): steps are rejected many times in a row and the Newton
+             iteration of the implicit pairs fails repeatedly; only oracle 3 (retry sizes) and the time grid are judged.
   scaling    metamorphic: for a linear problem and an explicit adaptive method (or a Richardson wrapper of an explicit
              base), scaling (y0, atol) by 2^k leaves the recorded time grid bit-identical and scales the states exactly:
              the error test must be homogeneous in (y, atol) - no absolute floor, no swapped tolerances.
@@ -125,9 +127,20 @@ def _scaling(draw):
                 rtol=rtol, atol=rtol * draw(st.sampled_from([1.0, 1e-3, 1e3, 1e-6])), dense=False, k=draw(st.sampled_from([-17, -10, 13, 20, -30])))
 
 
+@st.composite
+def _sharp(draw):
+    """y' = -K tanh(M y) + cos(3 t): smooth but nearly discontinuous - steps are rejected many times in a row and the
+    Newton iteration of the implicit pairs fails repeatedly; only the retry rules (oracle 3) and the time grid are judged"""
+    method = draw(st.sampled_from(["RadauIIA5", "RadauIIA19", "LobattoIIIC4", "RadauIIA19", "RK45CKSolver", "RK8713MSolver", "DOPRI45"]))
+    return dict(part="sharp", method=method, K=draw(st.sampled_from([5.0, 50.0, 500.0])), M=draw(st.sampled_from([20.0, 200.0, 2000.0])),
+                dt=draw(st.sampled_from([0.05, 0.3, 1.0])), y0=draw(st.sampled_from([0.3, -1.0, 0.0, 2.5])), sign=draw(st.sampled_from([1.0, 1.0, -1.0])),
+                t0=draw(st.sampled_from([0.0, -2.0, 5.0])), L=draw(st.sampled_from([0.5, 2.0])), rtol=draw(st.sampled_from([1e-3, 1e-4, 1e-6])))
+
+
 def parts(tier):
     q = tier == "quick"
-    return [Part("scaling", strategy=_scaling(), examples=300 if q else 6000, timeout=300),
+    return [Part("sharp", strategy=_sharp(), examples=96 if q else 3000, timeout=300),
+            Part("scaling", strategy=_scaling(), examples=300 if q else 6000, timeout=300),
             Part("accuracy", strategy=_accuracy(), examples=500 if q else 10000, timeout=600),
             Part("blowup", strategy=_blowup(), examples=60 if q else 1500, timeout=300)]
 
@@ -398,7 +411,54 @@ def _check_scaling(case):
     return viols, dict(nontrivial=bool(len(t1) > 3), labels=labels, counts=dict(recorded_steps=len(t1) - 1))
 
 
+def _check_sharp(case):
+    import desolver as de
+    method = case["method"]
+    fam = M.family(M.get(method))
+    implicit = M.is_implicit(method)
+    attrs = dict(method=method, family=fam)
+    labels = ["sharp:" + method, "backward" if case["sign"] < 0 else "forward"]
+    K, Mx = case["K"], case["M"]
+    # forward: strongly attracted to y = 0 (stiff); backward: the same field integrated in reverse time
+    def rhs(t, y, **kw):
+        return -K * np.tanh(Mx * y) + np.cos(3 * t)
+    t0, tf = case["t0"], case["t0"] + case["sign"] * case["L"]
+    a = de.OdeSystem(rhs, y0=np.array([case["y0"]], dtype=np.float64), t=(t0, tf), dt=case["dt"], rtol=case["rtol"], atol=case["rtol"])
+    a.method = M.get(method)
+    rec = Recorder(a.integrator)
+    err = traj.run_integrate(a, step_limit=300)
+    viols = []
+    retries = 0
+    newton_retries = 0
+    for t_start, hs in rec.groups():
+        retries += len(hs) - 1
+        if implicit and len(hs) >= 3:
+            newton_retries += 1
+        for h_prev, h_next in zip(hs, hs[1:]):
+            same_sign = (h_prev > 0) == (h_next > 0) and h_next != 0
+            smaller = abs(h_next) < abs(h_prev) if not implicit else abs(h_next) <= abs(hs[0])
+            if not (same_sign and smaller):
+                viols.append(V("retry_not_smaller", "{}: within one step from t={!r} the attempts were offered {} - a retry must {} and keep the sign (y' = -{} tanh({} y) + cos 3t)".format(
+                    method, t_start, hs[:8], "never exceed the step first requested" if implicit else "have strictly smaller magnitude", K, Mx), fam, **attrs))
+                break
+        if viols:
+            break
+    if err is None and not viols:
+        viols += traj.trajectory_invariants(a, t0, np.array([case["y0"]]), [(0, len(a) - 1, tf, case["sign"])], np.float64, attrs)
+    elif err is not None and not isinstance(err, traj.StepCap) and not isinstance(err.__cause__, de.exception_types.FailedToMeetTolerances):
+        viols.append(V("integrate_raised", "{}: y' = -{} tanh({} y) + cos 3t raised {!r} caused by {!r}".format(method, K, Mx, err, err.__cause__), fam + exc_sig(err), hlam=None, **attrs))
+    if err is not None:
+        labels.append("capped" if isinstance(err, traj.StepCap) else "reported_failure")
+    if retries >= 3:
+        labels.append("three_or_more_retries")
+    if newton_retries:
+        labels.append("implicit_step_retried_twice_or_more")
+    return viols, dict(nontrivial=retries >= 2, labels=labels, counts=dict(rejected_attempts=retries))
+
+
 def check(case):
+    if case["part"] == "sharp":
+        return _check_sharp(case)
     if case["part"] == "scaling":
         return _check_scaling(case)
     return _check_accuracy(case) if case["part"] == "accuracy" else _check_blowup(case)
